@@ -56,10 +56,8 @@ Proof.
   - reflexivity.
   - apply bytes_ok_cons in H. destruct H as [Hb Hl].
     cbn [le_dec length le_enc].
-    replace ((b + 256 * le_dec l) mod 256) with b.
-    2:{ rewrite N.add_comm, N.mul_comm, N.mod_add by discriminate. symmetry. apply N.mod_small. exact Hb. }
-    replace ((b + 256 * le_dec l) / 256) with (le_dec l).
-    2:{ rewrite N.add_comm, N.mul_comm, N.div_add_l by discriminate. rewrite (N.div_small b 256 Hb). lia. }
+    replace ((b + 256 * le_dec l) mod 256) with b by lia.
+    replace ((b + 256 * le_dec l) / 256) with (le_dec l) by lia.
     rewrite IH by exact Hl. reflexivity.
 Qed.
 
@@ -92,14 +90,14 @@ Lemma le64_enc_dec l : bytes_ok l -> length l = 8%nat -> le64_enc (le64_dec l) =
 Proof.
   intros Hb Hl. unfold le64_dec, le64_enc, two63, two64.
   pose proof (le_dec_bound l Hb) as H. rewrite Hl in H. change (256 ^ N.of_nat 8) with 18446744073709551616 in H.
-  rewrite <- (le_enc_dec l Hb) at 2. rewrite Hl. f_equal.
-  destruct (Z.ltb_spec (Z.of_N (le_dec l)) 9223372036854775808) as [Hlt|Hge].
-  - rewrite Z.mod_small by lia. apply N2Z.id.
-  - replace ((Z.of_N (le_dec l) - 18446744073709551616) mod 18446744073709551616)%Z with (Z.of_N (le_dec l)).
-    + apply N2Z.id.
-    + symmetry. rewrite <- (Z.mod_small (Z.of_N (le_dec l)) 18446744073709551616) at 2 by lia.
-      rewrite <- (Z_mod_plus_full (Z.of_N (le_dec l) - 18446744073709551616) 1 18446744073709551616).
-      f_equal. lia.
+  assert (Hv : Z.to_N ((if (Z.of_N (le_dec l) <? 9223372036854775808)%Z then Z.of_N (le_dec l)
+                         else (Z.of_N (le_dec l) - 18446744073709551616)%Z) mod 18446744073709551616) = le_dec l).
+  { destruct (Z.ltb_spec (Z.of_N (le_dec l)) 9223372036854775808) as [Hlt|Hge].
+    - rewrite Z.mod_small by lia. apply N2Z.id.
+    - replace (Z.of_N (le_dec l) - 18446744073709551616)%Z
+        with (Z.of_N (le_dec l) + (-1) * 18446744073709551616)%Z by lia.
+      rewrite Z_mod_plus_full, Z.mod_small by lia. apply N2Z.id. }
+  rewrite Hv. rewrite <- Hl. apply le_enc_dec. exact Hb.
 Qed.
 
 (* ---------- list helpers ---------- *)
@@ -159,7 +157,7 @@ Section HmacProofs.
       - intros (-> & H). rewrite app_length. split; [lia|auto]. }
     split.
     - rewrite Hsome. tauto.
-    - destruct (hmac_decrypt hmac dlen a k (body ++ tag)) as [m|] eqn:Hd.
+    - case_eq (hmac_decrypt hmac dlen a k (body ++ tag)); [intros m Hd|intros Hd].
       + apply Hsome in Hd. destruct Hd as [-> Hd]. split; [discriminate|intros Hn; contradiction].
       + split; [|reflexivity]. intros _ Heq.
         assert (hmac_decrypt hmac dlen a k (body ++ tag) = Some body) by (apply Hsome; auto). congruence.
